@@ -401,3 +401,89 @@ pub fn artefact_digest(a: &Artefact, sig_body: &[u8], object: &[u8]) -> Result<V
 pub fn hash_id(h: HashAlgorithm) -> u8 {
     u8::from(h)
 }
+
+
+fn mpi_bytes(v: &[u8]) -> Vec<u8> {
+    let mut v = v;
+    while v.first() == Some(&0) {
+        v = &v[1..];
+    }
+    let bits = if v.is_empty() { 0 } else { v.len() * 8 - v[0].leading_zeros() as usize };
+    let mut out = (bits as u16).to_be_bytes().to_vec();
+    out.extend_from_slice(v);
+    out
+}
+
+/// Assemble a v4 / v6 signature packet body with arbitrary hashed / unhashed areas: the digest is
+/// computed by the reference (RFC 9580 5.2.4) over `content` and signed with the key's raw signer.
+#[allow(clippy::too_many_arguments)]
+pub fn craft_signature<S: SigningKey>(
+    key: &S,
+    version: u8,
+    typ: u8,
+    hash: HashAlgorithm,
+    hashed: &[u8],
+    unhashed: &[u8],
+    salt: &[u8],
+    content: &[&[u8]],
+) -> Result<Vec<u8>, String> {
+    let hash_id = u8::from(hash);
+    let mut fields = vec![version, typ, u8::from(key.algorithm()), hash_id];
+    if version == 6 {
+        fields.extend_from_slice(&(hashed.len() as u32).to_be_bytes());
+    } else {
+        fields.extend_from_slice(&(hashed.len() as u16).to_be_bytes());
+    }
+    fields.extend_from_slice(hashed);
+    let mut trailer = vec![version, 0xFF];
+    trailer.extend_from_slice(&(fields.len() as u32).to_be_bytes());
+    let mut parts: Vec<&[u8]> = Vec::new();
+    if version == 6 {
+        parts.push(salt);
+    }
+    parts.extend_from_slice(content);
+    parts.push(&fields);
+    parts.push(&trailer);
+    let digest = kdf::hash(hash_id, &parts);
+    let raw = key.sign(&Password::empty(), hash, &digest).map_err(|e| e.to_string())?;
+    let mut body = fields.clone();
+    if version == 6 {
+        body.extend_from_slice(&(unhashed.len() as u32).to_be_bytes());
+    } else {
+        body.extend_from_slice(&(unhashed.len() as u16).to_be_bytes());
+    }
+    body.extend_from_slice(unhashed);
+    body.extend_from_slice(&digest[..2]);
+    if version == 6 {
+        body.push(salt.len() as u8);
+        body.extend_from_slice(salt);
+    }
+    match &raw {
+        pgp::types::SignatureBytes::Mpis(ms) => {
+            for m in ms {
+                body.extend_from_slice(&mpi_bytes(m.as_ref()));
+            }
+        }
+        pgp::types::SignatureBytes::Native(b) => body.extend_from_slice(b),
+    }
+    Ok(body)
+}
+
+/// One raw subpacket: length (1 or 2 or 5 octets, minimal), type octet (with critical bit), body.
+pub fn raw_subpacket(typ: u8, critical: bool, body: &[u8]) -> Vec<u8> {
+    let n = body.len() + 1;
+    let mut out = Vec::new();
+    if n < 192 {
+        out.push(n as u8);
+    } else if n < 16320 {
+        let m = n - 192;
+        out.push((m >> 8) as u8 + 192);
+        out.push(m as u8);
+    } else {
+        out.push(255);
+        out.extend_from_slice(&(n as u32).to_be_bytes());
+    }
+    out.push(typ | if critical { 0x80 } else { 0 });
+    out.extend_from_slice(body);
+    out
+}
